@@ -205,6 +205,10 @@ func MutexUnlock(m *sync.Mutex) {
 	}
 	mutexHeld[m] = 0
 	LockEvent(m, false)
+	runUnlockHook(m)
+}
+
+func runUnlockHook(m interface{}) {
 	if UnlockHook != nil && m == UnlockHookMutex {
 		if UnlockHookSkip > 0 {
 			UnlockHookSkip--
@@ -221,7 +225,7 @@ func MutexUnlock(m *sync.Mutex) {
 // a lock boundary inside the first one — a real interleaving, whatever it does to the first call's control flow.
 var (
 	UnlockHook      func()
-	UnlockHookMutex *sync.Mutex
+	UnlockHookMutex interface{} // *sync.Mutex or *sync.RWMutex
 	UnlockHookSkip  int
 )
 
@@ -368,6 +372,7 @@ func RWMutexUnlock(m *sync.RWMutex) {
 	}
 	rwHeld[m] = 0
 	LockEvent(m, false)
+	runUnlockHook(m)
 }
 
 //verif:replace (*sync.RWMutex).RLock
